@@ -53,5 +53,28 @@ claim(
     "passes; any changed row is the witness. Interplay of three or more parameters and expression-valued defaults are outside the domain.",
     TB + "; CPython's own function-call binder is the reference for 'binds'; variadics carry the marker defaults griffe's agents store",
 )
+claim(
+    "C01",
+    "typestate of the extension-event protocol on the statement CFG, def-use provenance of line spans, scoped-flag typestate, dominance of "
+    "the tie-break guard, finite-domain abstract evaluation of the visibility predicates and get_docstring into decision tables, "
+    "dispatch-table agreement",
+    "Structural necessary conditions of C01 on every path of the visitor: handler coverage and child traversal, one announcement per "
+    "built object in the documented order with the object just built, spans taken from the handled node, runtime flag passed everywhere "
+    "and the type-guard flag scoped to the if body, the keep-existing tie-break dominated by both conditions, and the seven visibility "
+    "predicates equal to the documented table on all (up to 960) abstract states. Does not decide one-member-per-name for arbitrary "
+    "programs, docstring text equality or __all__ evaluation.",
+    TB + "; reference visibility table transcribed from the is_public docstring / docs/guide/users/navigating.md / Language Reference 7.11",
+)
+claim(
+    "C11",
+    "dominance on the CFG (public frontier), finite-domain abstract evaluation of the dispatch / removal / base / value rules into decision "
+    "tables, alias-dereference exception discipline (exception-flow summaries), registry agreement, def-use of the CLI's loads and exit code",
+    "On every path: every breakage of the member walk is dominated by is_public and the walk uses all_members on both sides; the type "
+    "dispatch table is total and routes alias/kind-mismatch/same-kind cases as documented; removal, base and value rules equal their "
+    "tables; no alias error can escape the comparison; each breakage kind/style has its class/method; the CLI loads old from `against`, "
+    "new from `base_ref`/tree, prints every breakage and exits 1 exactly when there is one; is_public equals the documented table. "
+    "Silence after arbitrary compatible edit scripts is not decided.",
+    TB,
+)
 for _p in [f"C{n:02d}" for n in range(1, 20) if f"C{n:02d}" not in CLAIMED]:
     NOT_YET[_p] = "check under construction in this round (static rules designed in DESIGN.md section 3; not yet registered)"
